@@ -4,7 +4,7 @@
 # 2. runs the given checks against it; 3. prints a summary line.
 export GOFLAGS=-mod=mod GOPROXY=off GOSUMDB=off GOTOOLCHAIN=local
 src=$1; shift
-d=$(mktemp -d /tmp/mc-XXXX)
+d=$(mktemp -d /tmp/mc-XXXX) && [ -n "$d" ] || { echo "no scratch directory (disk full?)"; exit 2; }
 git -C /repo worktree add -q --detach $d HEAD || exit 2
 trap "git -C /repo worktree remove --force $d" EXIT
 pk=$(python3 -c "import json;print(json.load(open('$src/meta.json')).get('demo_package_dir',''))")
